@@ -481,6 +481,10 @@ def gen_scripts(prop, tier, seed):
                 continue
             for _ in range(per):
                 scripts.append(gen.gen(rng, kind, mode))
+    if tier == "thorough" and "single" in spec["modes"]:
+        # bounded-exhaustive small scope: every script of 3 steps over the small alphabet, 2 slots, 3 keys
+        for kind in spec["kinds"]:
+            scripts.extend(gen.exhaustive(kind, 3))
     return scripts, ncorpus
 
 
